@@ -6,6 +6,18 @@ import os
 ROOT = os.path.dirname(os.path.dirname(os.path.abspath(__file__)))
 
 CHECKS = {
+    "C02": dict(
+        technique="TLA+ specs of the name-request state machine (Namer/NamerM, model-checked) and of the input space "
+                  "(NamerInputs, enumerated by TLC); recorded name tables of the real SignalNamespace / convert() "
+                  "judged by TLC trace specs (NamerTrace, Netlist)",
+        text="TLC enumerates sets of signals with adversarial back-traces, overrides, related chains and all 248 "
+             "IEEE-1800 keywords, in all request/duid/set orders; the real build_signal_namespace/get_name and the real "
+             "convert() (five fresh interpreters: tracer shim on/off, hash seeds 0/1) are executed; Injective, Stable, "
+             "LegalSyntax, NotReserved, OrderIndependentUniqueness, DeclUnique, Reproducible are invariants of the "
+             "recorded outcomes; the design itself is model-checked for all request orders over 3-5 signals.",
+        note="bounded universes (<=5 signals, back-traces <=3); a conversion that raises is not judged; known findings: "
+             "three keywords not reserved, suffix look-alike collision (listed)",
+        ref="4 (C02)", engine="tlc+api"),
     "C03": dict(
         technique="TLA+ contract (StreamContract) model-checked by TLC on the closed-loop product of a nondeterministic "
                   "producer/consumer with the transition graph of the real netlist (state-loading FHDL stepper); "
@@ -59,6 +71,17 @@ CHECKS = {
         note="Wishbone only so far (AXI-Lite/AXI time-outs are added with the C08 family); the default 10^6-cycle "
              "time-out is the same netlist with a wider counter; known finding: wishbone.Crossbar has no time-out",
         ref="4 (C11)"),
+    "C13": dict(
+        technique="TLA+ spec of the API call-history space (SocAlloc, enumerated by TLC); histories executed on the "
+                  "real SoCBusHandler/SoCRegion/SoCLocHandler/ConstraintManager; every recorded prefix judged by a TLA+ "
+                  "trace spec (SocAllocTrace), real decoders evaluated with the reference evaluator",
+        text="all call histories up to length 3-4 (thorough 4-5) in a scaled universe (16-unit address space, non "
+             "power-of-two sizes, misaligned origins, IO/linker/cached flags, boundary location numbers, platform "
+             "request/lookup sequences) plus seeded deep histories; 14 clauses, one INVARIANT each.",
+        note="bus geometry on a 16-unit grid; handler level only (no full SoC.finalize); known findings: location "
+             "n == n_locs accepted, uncached allocation in the pow2 slack of an IO region, overlapping slave in a "
+             "linker region (listed)",
+        ref="4 (C13)", engine="tlc+api"),
     "C15": dict(
         technique="TLA+ contract (EventContract) model-checked by TLC on the closed-loop product of free trigger "
                   "waveforms and CSR bus operations with the transition graph of the real EventManager+CSRBank netlist",
@@ -68,6 +91,35 @@ CHECKS = {
         note="8-bit CSR bus, one or two managers behind real CSRBanks; W1C clear latency window 1..3 cycles is "
              "a parameter of the contract; UART/Timer/GPIO clients are covered only through their EventManager",
         ref="4 (C15)"),
+    "C17": dict(
+        technique="implementation function tables recorded exhaustively from the real encoder/decoder netlists and "
+                  "model-checked by TLC (Code8b10b: all symbol sequences via a disparity/run-length state machine); "
+                  "G-mode closed loop and trace validation for the stream wrappers",
+        text="RoundTrip for all 268 symbols x both disparities, InvalidOnImpossibleWeight for all 1024 words, "
+             "DisparityWithinOne / RunLength / NoFalseComma as invariants over ALL symbol sequences, DisparityChaining "
+             "for 1-4 words; StreamEncoder/StreamDecoder under all valid/ready schedules with small alphabets.",
+        note="stream wrappers exhaustive for 2-5 symbol alphabets and <=3 words; known finding: StreamEncoder advances "
+             "its running disparity on idle payload (listed)",
+        ref="4 (C17)"),
+    "C18": dict(
+        technique="cases recorded from the real combinational ECCEncoder/ECCDecoder netlists and judged by a TLA+ "
+                  "spec (Secded) with words as bit-position sets; TLC also plans the case space and decides coverage",
+        text="exhaustive for k=1..6 (all data x all 0/1/2-flip sets, enable on/off), all flip sets x >=5 data words "
+             "for k=7..32, and the linear-code argument (unit vectors, all single positions, sampled pairs) for k up "
+             "to 128.",
+        note="for k>32 'all data words' rests on GF(2) linearity, probed by samples; parity position taken as interface",
+        ref="4 (C18)", engine="tlc+fhdl_step"),
+    "C20": dict(
+        technique="TLA+ spec of the request space (PllRequests: seeded simulation + two exhaustive sub-spaces) "
+                  "executed on the real clocking helpers; configurations, emitted Instance parameters and declared "
+                  "ranges judged by a TLA+ spec with exact rational arithmetic (PllConfig) incl. TLC's own feasibility "
+                  "search for refusals",
+        text="MeetsRequest, InsideRanges, InstanceEqualsConfig, RefusedOnlyIfInfeasible as invariants over ~2300 "
+             "(quick) / ~34000 (thorough) requests across Xilinx S6/S7/US/US+, Lattice ECP5/iCE40/NX, Intel, Gowin, "
+             "Efinix Trion helpers and all speed grades.",
+        note="sampling plus exhaustive one-output / fill-all-outputs sub-spaces, not the whole request space; float "
+             "boundary cases classified indeterminate and counted; 12 known findings (listed)",
+        ref="4 (C20)", category="exploration", engine="tlc+api"),
 }
 
 NOT_APPLICABLE = []
